@@ -355,7 +355,7 @@ func checkBidStrategy(p *core.Prog, r *core.Report, ds *core.Describer, rel stri
 		case "WinningParticipation":
 			nonZero := func(c core.Cond) int {
 				// score.Sign() != 0
-				if c.Op != "" && c.X != nil && c.X.Kind == "call" && strings.HasSuffix(c.X.Name, "big.Int.Sign") && c.Y != nil && c.Y.Kind == "const" && c.Y.Name == "0" {
+				if c.Op != "" && c.X != nil && c.X.Kind == "call" && strings.HasSuffix(c.X.Name, "big.Int.Sign") && c.Y != nil && c.Y.Kind == "const" && c.Y.Name == "0" && len(c.X.Args) > 0 && recordedScore != "" && c.X.Args[0].String() == recordedScore {
 					for s := 0; s < 2; s++ {
 						if c.RelOnEdge(s) == "!=" {
 							return s
